@@ -359,6 +359,39 @@ theorem C08_sso_meets_spec (eps : Option (List (Endpoint α))) (b : α) :
     simp only
     exact List.any_eq_true.mpr ⟨e, he, by simp [hb, hd]⟩
 
+/-- SP side, negotiated binding: the binding reported and the location used belong together in the target's
+    metadata, and the binding is one the caller allowed. -/
+theorem C08_negotiate_registered (eps : Option (List (Endpoint α))) :
+    ∀ (toTry : List α) (b d : α), negotiate eps toTry = some (b, d) → b ∈ toTry ∧ ssoLocation eps b = some d
+  | [], b, d, h => by simp [negotiate] at h
+  | b0 :: rest, b, d, h => by
+    unfold negotiate at h
+    cases hs : ssoLocation eps b0 with
+    | some d0 =>
+      rw [hs] at h
+      simp only [Option.some.injEq, Prod.mk.injEq] at h
+      obtain ⟨hb, hd⟩ := h
+      subst hb; subst hd
+      exact ⟨List.mem_cons_self, hs⟩
+    | none =>
+      rw [hs] at h
+      obtain ⟨hm, hl⟩ := C08_negotiate_registered eps rest b d h
+      exact ⟨List.mem_cons_of_mem _ hm, hl⟩
+
+theorem C08_negotiate_meets_spec (eps : Option (List (Endpoint α))) (toTry : List α) :
+    specNeg eps toTry (negotiate eps toTry) = true := by
+  cases h : negotiate eps toTry with
+  | none => rfl
+  | some p =>
+    obtain ⟨b, d⟩ := p
+    obtain ⟨hm, hl⟩ := C08_negotiate_registered eps toTry b d h
+    unfold specNeg
+    simp only [Bool.and_eq_true]
+    refine ⟨List.contains_iff_mem.mpr hm, ?_⟩
+    have := C08_sso_meets_spec eps b
+    rw [hl] at this
+    exact this
+
 theorem C08_slo_meets_spec (truthy : α → Bool) (eps : List (Endpoint α)) (preferred : List α) (expected : Option α) :
     specSlo eps (sloChoice truthy eps preferred expected) = true := by
   cases h : sloChoice truthy eps preferred expected with
